@@ -45,7 +45,7 @@ TRUSTED = [
     "DistributedPerLayerOptimizer (noise inside backward hooks) is not in this machine; its accounting path is the same step_hook (see C18)",
 ]
 PARTIAL = [
-    "epsilon depends only on the multiset of recorded steps: proved for additive (RDP-style) costs (`cost_perm_invariant`); PRV/GDP: metamorphic search in C12",
+    "epsilon depends only on the multiset of recorded steps: proved for additive (RDP-style) costs (`cost_perm_invariant`) and, for the PRV pmf, under the no-aliasing hypotheses (C07 `compose_heterogeneous_perm_invariant`); GDP has a single run by construction; the real accountants: metamorphic search in C12",
     "AdaClipDPOptimizer raises on an empty Poisson batch (finding D21, owned by C20): `empty_batch_accounted` holds for flat / per-layer / ghost",
 ]
 
